@@ -231,6 +231,10 @@ func (e *Engine) callContract(st *State, fr *Frame, callee *ssa.Function, c *Con
 	for n, v := range vars {
 		cfr.names[n] = NameBinding{V: v}
 	}
+	isAction := e.atomicMode() && c.Trusted
+	if isAction {
+		e.interfere(st)
+	}
 	pre := st.Clone()
 	se := &SpecEnv{e: e, st: st, old: pre, fr: cfr, vars: vars, env: env, pkg: c.Pkg}
 	e.bindLets(c, se)
@@ -274,6 +278,13 @@ func (e *Engine) callContract(st *State, fr *Frame, callee *ssa.Function, c *Con
 	e.bindLets(c, se2)
 	for _, en := range c.Ensures {
 		st.Assume(e.evalBool(en.E, se2))
+	}
+	if isAction {
+		a := &Action{Kind: body.Name(), Obj: args[0].L[0], Args: args[1:], Pre: pre, Post: st.Clone()}
+		for i := 0; i < sig.Results().Len(); i++ {
+			a.Res = append(a.Res, post[names[i]])
+		}
+		e.recordAction(st, a)
 	}
 	k(st, fr, res)
 }
@@ -658,6 +669,8 @@ func (e *Engine) execTypeAssert(st *State, fr *Frame, x *ssa.TypeAssert, pos str
 		fr.regs[x] = res
 	} else {
 		e.obligationPanic(st, "type-assert", pos, ok)
+		// the payload of an interface value of dynamic type T is the box of the asserted value
+		st.Assume(Eq(e.box(Val{T: at, L: v.L}), iv.L[1]))
 		v.T = rt
 		fr.regs[x] = v
 	}
